@@ -21,6 +21,8 @@
 #                          them on unchanged; statements that only touch payload fields (name, data, namesize, datasize) and an
 #                          `if` whose branches consist of such statements only are dropped; tbl->num++ / -- are dropped (the element
 #                          counter is compared by the lockstep runs)
+#   assert(e)              dropped
+#   T x = p->name|data|...  dropped (a copy of a payload pointer or size)
 #   <counter>++            dropped: only for the global statistics counters named in COUNTERS
 #   errno = E              dropped (the helpers' errno is not part of what is proved here)
 # Anything else stops the translation with an error naming the construct: a change of the C text that leaves this
@@ -39,6 +41,9 @@ FIELDS = ('red', 'left', 'right')
 
 class Unsupported(Exception):
     pass
+
+
+FUELLED = {}      # name -> does the translation of that function take a fuel parameter (filled in as the functions are emitted)
 
 
 def load(repo):
@@ -68,6 +73,7 @@ class Fn:
         self.params = [c['name'] for c in allp if 'qtreetbl_obj_t *' in c['type']['qualType']]
         self.opaque = set(self.all_params) - set(self.params)
         self.ints = set()
+        self.bools = set()
         self.extra = []        # extra parameters (name, type) introduced by the translation
         self.retfmt = 'ret %s'
         self.body = [c for c in decl['inner'] if c.get('kind') == 'CompoundStmt'][0]
@@ -99,7 +105,7 @@ class Fn:
             raise Unsupported('integer literal %d in %s' % (v, self.name))
         if k == 'DeclRefExpr':
             nm = n['referencedDecl']['name']
-            if nm in self.locals or nm in self.ints:
+            if nm in self.locals or nm in self.ints or nm in self.bools:
                 return ('p', nm)
             raise Unsupported('reference to %s in %s' % (nm, self.name))
         if k == 'MemberExpr' and n.get('name') == 'root' and strip(n['inner'][0]).get('referencedDecl', {}).get('name') in self.opaque:
@@ -192,6 +198,9 @@ class Fn:
             if nm == self.name:
                 self.recursive = self.uses_fuel = True
                 return self.bind(self.tr(n['inner'][1]), lambda x: ('m', 'c_%s fuel %s' % (nm, x)))
+            if FUELLED.get(nm):
+                self.uses_fuel = True
+                return self.bind(self.tr(n['inner'][1]), lambda x: ('m', 'c_%s fuel %s' % (nm, x)))
             return self.bind(self.tr(n['inner'][1]), lambda x: ('m', 'c_%s %s' % (nm, x)))
         raise Unsupported('%s %s in %s' % (k, n.get('opcode', ''), self.name))
 
@@ -261,7 +270,7 @@ class Fn:
     def assigned(self, s, acc):
         if s.get('kind') == 'BinaryOperator' and s.get('opcode') == '=':
             l = strip(s['inner'][0])
-            if l.get('kind') == 'DeclRefExpr' and l['referencedDecl']['name'] in self.locals:
+            if l.get('kind') == 'DeclRefExpr' and l['referencedDecl']['name'] in (self.locals | self.ints | self.bools):
                 acc.add(l['referencedDecl']['name'])
         for c in s.get('inner', []):
             self.assigned(c, acc)
@@ -276,6 +285,11 @@ class Fn:
             return tail
         s, rest = stmts[0], stmts[1:]
         k = s.get('kind')
+        if '__assert_fail' in json.dumps(s):
+            if k in ('IfStmt', 'ForStmt', 'CompoundStmt', 'ReturnStmt', 'DeclStmt'):
+                pass
+            else:
+                return self.block(rest, tail)      # assert(e): dropped
         if k == 'ReturnStmt':
             if self.retfmt == 'ret %s':
                 return self.mon(self.tr(s['inner'][0]))
@@ -289,9 +303,15 @@ class Fn:
             if len(decls) != 1 or decls[0].get('kind') != 'VarDecl' or not decls[0].get('inner'):
                 raise Unsupported('declaration without initialiser in %s' % self.name)
             v = decls[0]['name']
+            i0 = strip(decls[0]['inner'][0])
+            if i0.get('kind') == 'MemberExpr' and i0.get('name') in PAYLOAD_FIELDS:
+                self.opaque.add(v)            # a copy of a payload pointer / size: not modelled
+                return self.block(rest, tail)
             r = self.tr(decls[0]['inner'][0])
             if decls[0]['type']['qualType'] == 'int':
                 self.ints.add(v)
+            elif decls[0]['type']['qualType'] in ('bool', '_Bool'):
+                self.bools.add(v)
             else:
                 self.locals.add(v)
             return self.mon(self.bind(r, lambda x: ('m', 'let %s := %s in\n  %s' % (v, x, self.block(rest, tail)))))
@@ -302,7 +322,7 @@ class Fn:
                 nm = l['referencedDecl']['name']
                 if nm == 'errno':
                     return self.block(rest, tail)
-                if nm not in self.locals:
+                if nm not in self.locals and nm not in self.ints and nm not in self.bools:
                     raise Unsupported('assignment to %s in %s' % (nm, self.name))
                 return self.mon(self.bind(self.tr(rhs), lambda x: ('m', 'let %s := %s in\n  %s' % (nm, x, self.block(rest, tail)))))
             if l.get('kind') == 'MemberExpr' and l.get('name') in PAYLOAD_FIELDS and not self.has_call(rhs):
@@ -411,7 +431,9 @@ def generate(repo):
         if f not in decls:
             raise SystemExit('gen_treeops: function %s not found in qtreetbl.c' % f)
         try:
-            txt = Fn(decls[f]).emit()
+            fn = Fn(decls[f])
+            txt = fn.emit()
+            FUELLED[f] = fn.uses_fuel
             if f in KEYED:
                 txt = 'Section WithKey_%s.\nVariable kc : positive -> Z.\n%sEnd WithKey_%s.\n' % (f, txt, f)
             out.append(txt)
